@@ -167,15 +167,9 @@ namespace adept {
     // Destructor simply unregisters the object from the stack,
     // freeing up the gradient index for another
     ~Active() {
-#ifdef ADEPT_RECORDING_PAUSABLE
-      if (ADEPT_ACTIVE_STACK->is_recording()) {
-#endif
-
-	ADEPT_ACTIVE_STACK->unregister_gradient(gradient_index_);
-
-#ifdef ADEPT_RECORDING_PAUSABLE
-      }
-#endif
+      // Every Active object is registered, whether or not recording
+      // was paused at the time, so is always unregistered
+      ADEPT_ACTIVE_STACK->unregister_gradient(gradient_index_);
     }
 
 
